@@ -30,8 +30,9 @@ def build_case(rng, spec, tier, prop):
     nops = rng.choice(tp.get("nops", (20, 40)))
     w = dict(prof.get("weights", {}))
     w["reopen"] = 0
-    w["clear"] = 0
+    w["clear"] = 1 if mode == "memfile" else 0
     ops = gen_history(rng, cfg, pool, text, nops, weights=w)
+    w["clear"] = 0
     case = {"engine": "lifecycle", "mode": mode, "cfg": cfg, "ops": ops, "aseed": rng.getrandbits(32),
             "audit_every": rng.choice(tp.get("audit_every", (3, 5)))}
     if mode == "reopen":
@@ -134,6 +135,14 @@ def run_case(prop, case, spec, scratch, stats):
                 a.apply(op)
                 if a.dead:
                     return out, feats, digest
+                if rng.random() < 0.3:
+                    B.run(a.t, probes_for(a, rng), lite=True)  # reads before the clear (caches must not survive it)
+                    stats["C11_batteries_before_clear"] += 1
+                if a.cfg["backend"] == "file" and rng.random() < 0.15:
+                    a.reopen()
+            if rng.random() < 0.5:
+                B.run(a.t, probes_for(a, rng), lite=True)
+                stats["C11_batteries_before_clear"] += 1
             clear_op = {"op": "clear", "default": case["clear_default"], "rules": case["clear_rules"]}
             ds = a.apply(clear_op)
             stats["C11_clears"] += 1
